@@ -145,9 +145,14 @@ func (*hbits) Run(rc *core.RunCtx) *core.RunResult {
 		limit = 1500
 	}
 	var prog string
+	twice := false
 	switch mode {
 	case 5:
 		prog = "tobytes"
+		if t.Intn(2) == 0 {
+			prog = "tobytes, tobytes" // the same whole-buffer binary written twice: both copies complete
+			twice = true
+		}
 	case 6:
 		prog = `first(.. | select(_is_decode_value? and (._buffer_root | ._path) == [] and ._stop > ._start and (._start % 8) == 0 and (._stop %% 8) == 0 and ._start > 0)) | tobytes`
 		prog = strings.ReplaceAll(prog, "%%", "%")
@@ -188,6 +193,9 @@ func (*hbits) Run(rc *core.RunCtx) *core.RunResult {
 	switch mode {
 	case 5:
 		res.Nontrivial = true
+		if twice {
+			data = append(append([]byte(nil), data...), data...)
+		}
 		if faulted {
 			if failed && bytes.HasPrefix(data, run.Res.Stdout) {
 				return res
